@@ -2,7 +2,7 @@
    durable metadata references, so a crash during or after compaction still satisfies C05.
    Statements only. *)
 From Anydb Require Import Common.Base Gen.Consts Rawdb.AMap Rawdb.Alloc Rawdb.Crash Rawdb.CrashFacts
-  Rawdb.CrashInv Rawdb.CrashSound Rawdb.CrashCompact Rawdb.AllocEvents Rawdb.AllocDisciplinedAll.
+  Rawdb.CrashInv Rawdb.CrashSound Rawdb.CrashCompact Rawdb.AllocEvents Rawdb.AllocDisciplinedAll Rawdb.AllocDisciplinedPunch.
 
 (* in an accepted trace, a punch issued while no operation ids are current (compaction names no
    region) is disjoint from the content [start, start+len) of EVERY possibly-durable version of
@@ -62,3 +62,18 @@ Theorem C12_all_histories_partial :
     forall i v, In (Some v) (possible m i) -> disjoint off len (sr_start v) (sr_len v) = true.
 Proof. exact C12_all_histories_partial_proof. Qed.
 Print Assumptions C12_all_histories_partial.
+
+(* FULL statement: compaction, in every history of the allocator model and for every outcome of
+   approx_has_punchable_data, punches only bytes that no possibly-durable version of any slot
+   references as content *)
+Definition C12_all_histories_full : Prop :=
+  forall orcs min_len ops, forallb crash_op ops = true ->
+  forall t1 off len t2, trace_of_o orcs min_len ops = t1 ++ CPunch off len :: t2 ->
+    let m := fst (mon_run mon_init t1) in
+    forall i v, In (Some v) (possible m i) -> disjoint off len (sr_start v) (sr_len v) = true.
+
+(* the structural fact (Rawdb/AllocDisciplinedPunch.v): in the model's traces punches occur only
+   while no operation ids are current, and the monitor's m_cur follows the last COp / CEnd *)
+Theorem C12_all_histories : C12_all_histories_full.
+Proof. exact C12_all_histories_proof. Qed.
+Print Assumptions C12_all_histories.
